@@ -4,7 +4,7 @@ from __future__ import annotations
 
 from typing import TYPE_CHECKING, Any
 
-from hypergraph.runners._shared.helpers import collect_as_lists, map_inputs_to_func_params
+from hypergraph.runners._shared.helpers import add_graph_node_emit_signals, collect_as_lists, map_inputs_to_func_params
 from hypergraph.runners._shared.types import PauseExecution, PauseInfo, RunResult, RunStatus
 
 if TYPE_CHECKING:
@@ -76,7 +76,7 @@ class AsyncGraphNodeExecutor:
                 event_processors=event_processors,
                 _parent_span_id=parent_span_id,
             )
-            return collect_as_lists(results, node, error_handling)
+            return add_graph_node_emit_signals(node, collect_as_lists(results, node, error_handling))
 
         result = await self.runner.run(
             node.graph,
@@ -99,4 +99,4 @@ class AsyncGraphNodeExecutor:
                 values=result.pause.values,
             )
             raise PauseExecution(nested_pause)
-        return node.map_outputs_from_original(result.values)
+        return add_graph_node_emit_signals(node, node.map_outputs_from_original(result.values))
